@@ -41,6 +41,16 @@ add("C06", "model-based stateful property testing (rapid) of setter histories ag
     "Generated Cond/Init starts followed by up to 25 setter calls with accepted and rejected arguments (nil/empty/bogus operators, nil/empty expressions, stacks under no-nesting, expressions under error); after every step Keyword/Operator/Expression, Err, Valid, String (canonical text, gated by validity) and option getters are compared with the model. Exploration only.",
     "Trusted: the acceptance rules as written in the statement; reference renderer for stack expressions. No policies installed.")
 
+add("C04", "round-trip property testing (rapid): reference unmarshal over the tree description, Marshal reconstruction walk, second unmarshal, IsEqual; native fuzzing of the same oracle",
+    "Generated trees of all five kinds (empty stacks, nil leaves, Conditions with primitive/Stack/Condition expressions, capacity/fold on some nodes): Unmarshal must equal the reference expansion, Marshal of it into a zero Stack must rebuild the same kinds/order/leaves/Condition parts at every position, re-unmarshalling must deep-equal the first slice, IsEqual must hold both ways when no capacity/fold is involved, and the returned slice must not alias the stack. Exploration only.",
+    "Trusted: the reference expansion (written from the statement). A Condition used as a Condition's expression may be passed through as-is (documented by Condition.Unmarshal).")
+add("C05", "build-twice / single-point-mutation metamorphic property testing (rapid) + native fuzzing",
+    "For generated descriptions with primitive, pointer (depth 1-3), slice/array/map/struct leaves: two independent builds must be IsEqual in both directions; a copy with exactly one point mutation (any leaf, any container position, map key, struct field, keyword, operator, kind, capacity, sibling swap, add/drop) must be rejected in both directions; no panic. Exploration only.",
+    "Trusted: the mutation engine produces a real difference (values chosen to differ after type clamping). Excluded: NaN, typed nil pointers, nested containers, funcs/chans, unexported-field mutations.")
+add("C07", "differential property testing (rapid): Traverse vs a stepwise Index descent reference, structured + random + all short paths",
+    "For generated trees (all kinds, nil slots, Conditions with/without stack expressions, aliases, index options) every generated path - and all paths up to length 3 over [-1,width+1] for a quarter of the small trees - is given to Traverse and to a reference that uses only Index/ConvertStack/ConvertCondition/Expression; value (by underlying identity) and flag must agree. Exploration; exhaustive only for the short-path sub-space of the sampled trees.",
+    "Trusted: Index (decided by C01/C08), the converters. Zero-valued Stack elements are C08's domain.")
+
 NOT_YET = {}
 
 ALL = ["C%02d" % i for i in range(1, 21)]
